@@ -110,8 +110,10 @@ def classify(case_desc, a, b, field):
     headers = case_desc["headers"]
     body = case_desc.get("body")
     if field == "headers":
-        defined = {k.lower() for k in headers}
+        defined = {k.lower() for k in headers} | {k.lower() for k in case_desc.get("call_headers", {})}
         ha, hb = dict(comparable_headers(a, defined)), dict(comparable_headers(b, defined))
+        if any(ha.get(k.lower()) != hb.get(k.lower()) for k in case_desc.get("call_headers", {})):
+            return "C09/call-header-named-like-a-default-one-not-reproduced"
         if any(k in DEFAULT_NAMED for k in defined) and any(ha.get(k) != hb.get(k) for k in defined if k in DEFAULT_NAMED):
             return "C09/case-header-named-like-a-default-one-not-reproduced"
         missing = [k for k in ha if k not in hb]
@@ -198,9 +200,15 @@ def run_shard(spec, emit):
                 cookies=desc["cookies"] or None,
                 **kwargs,
             )
+            overrides = None
+            if rng.random() < 0.25 and not any(k.lower() in DEFAULT_NAMED for k in desc["headers"]):
+                # what `-H` does: a header given to the call, not part of the case, named like a default one
+                overrides = {rng.choice(["Accept", "User-Agent"]): rng.choice(["application/x-vmon", "vmon-agent/1.0"])}
+                desc["call_headers"] = overrides
+                emit.count("cases_with_default_named_call_header")
             before = len(server.log)
             try:
-                response = case.call(session=session)
+                response = case.call(session=session, headers=overrides)
             except Exception as exc:
                 emit.count("cases_not_sendable")
                 continue
@@ -254,7 +262,7 @@ def run_shard(spec, emit):
                 b = dict(b, body="", headers=[(k, re.sub(r"boundary=[^;]+", "boundary=B", v) if k.lower() == "content-type" else v) for k, v in b["headers"]])
             if a["body"] != b["body"]:
                 emit.viol(classify(desc, a, b, "body"), f"{a['body'][:100]!r} vs {b['body'][:100]!r}", context)
-            defined = {k.lower() for k in desc["headers"]}
+            defined = {k.lower() for k in desc["headers"]} | {k.lower() for k in desc.get("call_headers", {})}
             if comparable_headers(a, defined) != comparable_headers(b, defined):
                 emit.viol(classify(desc, a, b, "headers"), f"{comparable_headers(a, defined)} vs {comparable_headers(b, defined)}"[:400], context)
 
@@ -319,7 +327,9 @@ def cli_part(rng, emit, tier, seed):
     ]
     # (failures first found in the stateful phase have their own code path: every run of the check has such runs)
     phases = ["examples,coverage,fuzzing,stateful", "stateful", "coverage", "stateful", "fuzzing,stateful"][(seed // 4 + rng.randrange(100) * 0) % 5 if tier == "quick" else rng.randrange(5)]
-    args = ["--header", f"X-Extra: {extra}", "--header", "X-Second: 2", "--phases", phases, "--max-examples", "5", "--seed", str(seed + 3), "--generation-database", "none", "--checks", "not_a_server_error", "--output-sanitize", "false", "--mode", "positive"]
+    user_named = rng.choice([("Accept", "application/x-vmon"), ("User-Agent", "vmon-agent/1.0")])
+    cli_defined = {user_named[0].lower()}
+    args = ["--header", f"{user_named[0]}: {user_named[1]}", "--header", f"X-Extra: {extra}", "--header", "X-Second: 2", "--phases", phases, "--max-examples", "5", "--seed", str(seed + 3), "--generation-database", "none", "--checks", "not_a_server_error", "--output-sanitize", "false", "--mode", "positive"]
     result = engine.run_cli(doc, args, rules=rules, timeout=150)
     if result.hung:
         emit.inconclusive("watchdog fired in CLI reproduction run")
@@ -358,13 +368,13 @@ def cli_part(rng, emit, tier, seed):
                 if ma is not None or mb is not None:
                     if ma is None or mb is None or "error" in ma or "error" in mb or ma["parts"] != mb["parts"]:
                         return False
-                    strip = lambda rec: [(k, re.sub(r"boundary=[^;]+", "boundary=B", v) if k == "content-type" else v) for k, v in comparable_headers(rec)]
+                    strip = lambda rec: [(k, re.sub(r"boundary=[^;]+", "boundary=B", v) if k == "content-type" else v) for k, v in comparable_headers(rec, cli_defined)]
                     return strip(a) == strip(b)
-                return a["body"] == b["body"] and comparable_headers(a) == comparable_headers(b)
+                return a["body"] == b["body"] and comparable_headers(a, cli_defined) == comparable_headers(b, cli_defined)
 
             if not any(same(a) for a in failing):
                 candidates = [a for a in failing if a["method"] == b["method"] and a["raw_path"] == b["raw_path"]]
-                detail = f"reproduced headers {comparable_headers(b)} body {b['body'][:80]!r}; " + (f"closest original: headers {comparable_headers(candidates[0])} body {candidates[0]['body'][:80]!r}" if candidates else "no failing original with this method and URL")
+                detail = f"reproduced headers {comparable_headers(b, cli_defined)} body {b['body'][:80]!r}; " + (f"closest original: headers {comparable_headers(candidates[0], cli_defined)} body {candidates[0]['body'][:80]!r}" if candidates else "no failing original with this method and URL")
                 emit.viol("C09/printed-command-differs-from-every-failing-request", detail[:500], context)
 
 
